@@ -140,3 +140,21 @@ def scalar_state(obj, skip=()) -> tuple:
         elif isinstance(v, bytearray):
             out.append((k, bytes(v)))
     return tuple(out)
+
+
+def diagnostic_attrs(make, drive, bound: int = 16, kinds=(int, float)) -> tuple:
+    """Names of numeric attributes that take more than ``bound`` distinct values along a probe run.
+
+    ``make()`` builds a fresh object, ``drive(obj)`` yields after each probe step.  Protocol state proper (3-bit counters,
+    small enums, flags) takes a handful of values; an attribute that keeps growing along the probe is a diagnostic counter
+    (frames seen, bytes received, last timestamp ...) added by a refactor.  Keeping it in a canonical state would make a closed
+    space infinite (the search would never end) and would make "one read vs. two reads" comparisons differ for no behavioural
+    reason, so searches that close over ``scalar_state`` drop these names -- the abstraction is listed in the evidence and
+    covered by each check's stateless validation runs and long streams, which do not merge states."""
+    obj = make()
+    seen: dict[str, set] = {}
+    for _ in drive(obj):
+        for k, v in vars(obj).items():
+            if type(v) in kinds:        # bool is excluded on purpose (type(), not isinstance)
+                seen.setdefault(k, set()).add(v)
+    return tuple(sorted(k for k, vals in seen.items() if len(vals) > bound))
